@@ -64,6 +64,10 @@ def opFn (j : Json) : Except String Json := do
     let a0 ← argStr j 0
     let a1 ← argBool j 1
     return Json.mkObj [("r", jstr (Pinned.Funcs.client_method_name a0 a1))]
+  if name == "sort_lines" then
+    let a0 ← argStr j 0
+    let a1 ← argBool j 1
+    return Json.mkObj [("r", jstr (Pinned.Funcs.sort_lines a0 a1))]
   throw s!"unknown translated function {name}"
 
 def opsFuncs : List (String × (Json → Except String Json)) := [("fn", opFn)]
